@@ -170,6 +170,10 @@ def run_case(ctx, items, labelmsm, seekable=False):
                 return
             j += 1
         ctx.hit("offsets_compared", len(got))
+        if validate == 0 and parsed and got != refmap:
+            ctx.violation("validate0-frames-differ", f"setting {key}: with validation off {len(got)} frames were "
+                          f"returned, {len(refmap)} were sent (error mode must not matter)", params)
+            return
         if validate == 1 and parsed:
             want = [(b, p) for (b, p), (_, twin) in zip(refmap, sent) if b == twin]
             if got != want:
